@@ -334,3 +334,66 @@ func keyFromRange(v ssa.Value, rg *ssa.Range) bool {
 }
 
 var _ = token.NoPos
+
+// rulesC06x: paired updates and removal discipline of the binding indexes.
+func (c *Ctx) rulesC06x(a *coreAnchors) {
+	c.rule("C06.rm", "slice-typed binding indexes of Subscriptions (whenQuery, whenQueue, whenQueueEnds) shrink only by deleting a matched position/binding or by being reset; never by trimming a counted prefix (matched bindings need not be a prefix: waiters register in subscription order, not tick order)")
+	c.rule("C06.pair", "every registration that inserts a binding under a context also records it in the matching *Ctx index in the same function, and every gc helper that removes a binding removes it from both")
+	sub := c.namedType(pm, "Subscriptions")
+	if sub == nil {
+		return
+	}
+	st := sub.Underlying().(*types.Struct)
+	n := 0
+	for i := 0; i < st.NumFields(); i++ {
+		fld := st.Field(i)
+		if _, ok := fld.Type().Underlying().(*types.Slice); !ok || !ownsWaiter(fld.Type(), 0) {
+			continue
+		}
+		for _, w := range c.writesOfField(fld) {
+			if w.Kind != "assign" {
+				continue
+			}
+			sl, ok := w.Val.(*ssa.Slice)
+			if !ok || loadOfField(sl.X) != fld {
+				continue
+			}
+			n++
+			// x = x[k:] with k not a constant position of a matched element
+			bad := sl.Low != nil
+			c.check(!bad, "C06.rm", fmt.Sprintf("%s re-slices %s only from the front by identity", funcKey(w.Fn), fld.Name()), w.Instr.Pos(),
+				fld.Name()+" is trimmed by a prefix ("+render(sl.Low)+" elements): the dropped bindings are not necessarily the matched ones, a still-open waiter is lost and never closes")
+		}
+	}
+	c.ok("C06.rm", fmt.Sprintf("%d prefix re-slices of binding indexes", n), token.NoPos, "scan of every store to the slice-typed binding indexes")
+	// paired ctx indexes
+	pairs := map[string]string{"when": "whenCtx", "whenTime": "whenTimeCtx", "whenArgs": "whenArgsCtx", "whenQuery": "whenQueryCtx"}
+	regs := map[string]string{"When": "when", "WhenNot": "when", "WhenTime": "whenTime", "WhenArgs": "whenArgs", "WhenQuery": "whenQuery"}
+	fieldByName := func(name string) *types.Var {
+		for i := 0; i < st.NumFields(); i++ {
+			if st.Field(i).Name() == name {
+				return st.Field(i)
+			}
+		}
+		return nil
+	}
+	for fn, prim := range regs {
+		f := c.fn(pm + ":Subscriptions." + fn)
+		pf, cf := fieldByName(prim), fieldByName(pairs[prim])
+		if f == nil || pf == nil || cf == nil {
+			continue
+		}
+		wp, wc := len(writesOfFieldIn(f, pf)) > 0, len(writesOfFieldIn(f, cf)) > 0
+		c.check(wp && wc, "C06.pair", "Subscriptions."+fn+" records the binding in "+prim+" and "+pairs[prim], f.Pos(), fmt.Sprintf("primary written: %v, ctx index written: %v — a binding missing from the ctx index is never released when its context ends", wp, wc))
+	}
+	for gc, prim := range map[string]string{"gcWhenBinding": "when", "gcWhenTimeBinding": "whenTime", "gcWhenArgsBinding": "whenArgs", "gcWhenQueryBinding": "whenQuery"} {
+		f := c.fn(pm + ":Subscriptions." + gc)
+		pf, cf := fieldByName(prim), fieldByName(pairs[prim])
+		if f == nil || pf == nil || cf == nil {
+			continue
+		}
+		wp, wc := len(writesOfFieldIn(f, pf)) > 0, len(writesOfFieldIn(f, cf)) > 0
+		c.check(wp && wc, "C06.pair", "Subscriptions."+gc+" removes the binding from "+prim+" and "+pairs[prim], f.Pos(), fmt.Sprintf("primary written: %v, ctx index written: %v", wp, wc))
+	}
+	c.floor("C06.pair", 8)
+}
